@@ -108,7 +108,7 @@ func runC09(e *Env) {
 	for w := 0; w < writers; w++ {
 		for i := 0; i < per; i++ {
 			m := &c09Msg{ID: len(msgs), Writer: w}
-			size := msgSizes[e.P(len(msgSizes))]
+			size := e.PSize(msgSizes, 6000)
 			if big && i == 0 {
 				size = 66000 + 1000*w // larger than the biggest pooled buffer class
 			}
